@@ -479,3 +479,7 @@ def main(argv):
     except ToolError as e:
         log("TOOL ERROR: %s" % e)
         return 2
+    except Exception:  # never let a defect of the machinery look like a verdict (exit 1 is reserved for VIOLATION)
+        import traceback
+        log("TOOL ERROR (unexpected exception):\n" + traceback.format_exc())
+        return 2
